@@ -89,21 +89,47 @@ example : dihY (rigid rotEx ⟨1, 2, 3⟩ ⟨0, 0, 0⟩) (rigid rotEx ⟨1, 2, 3
   rw [(C15_dihedral_invariant rotEx ⟨1, 2, 3⟩ _ _ _ _ hr).2.1]
   simp only [dihY, V3.dot, V3.cross, V3.sub]; norm_num
 
+def orthoEx : Box := ⟨⟨0, 8, 0⟩, ⟨16, 0, 0⟩, ⟨0, 0, -4⟩⟩
+def tricEx : Box := ⟨⟨8, 0, 0⟩, ⟨4, 8, 0⟩, ⟨2, 2, 8⟩⟩
+
 /-! ## Index variants -/
 
+/-- The box the index variants use is the documented one: nothing if `periodic=False`; with
+`periodic=True` an explicit `box=` argument overrides the `box` attribute of the atoms, the attribute is
+used when no box is given, and plain coordinates without a box are rejected (`ValueError`). -/
+theorem C15_index_box_precedence (own : Option BoxArg) (explicit : BoxArg) :
+    selectBox K.boxPrecedence false own explicit = .ok .none ∧
+    (explicit.isNone = false → selectBox K.boxPrecedence true own explicit = .ok explicit) ∧
+    (explicit.isNone = true → ∀ o, own = some o → selectBox K.boxPrecedence true own explicit = .ok o) ∧
+    (explicit.isNone = true → own = none → selectBox K.boxPrecedence true own explicit = .error .valueError) := by
+  rw [C15_gen_consts.prec]
+  refine ⟨rfl, ?_, ?_, ?_⟩
+  · intro h; simp [selectBox, h]
+  · intro h o ho; simp [selectBox, h, ho]
+  · intro h ho; simp [selectBox, h, ho]
+
 /-- `index_displacement(atoms, indices, periodic, box)` is `displacement` of the two gathered
-coordinate arrays (with the box only if `periodic`); the other `index_*` functions go through the
-same `_call_non_index_function`. -/
-theorem C15_index_eq_coord (a : Arr) (pairs : List (Int × Int)) (periodic : Bool) (box : BoxArg) (a1 a2 : Arr)
-    (hr : a.rank ≠ 1)
+coordinate arrays with the box selected above (`own = none`: `atoms` is an ndarray, `own = some b`: an
+`AtomArray` / `AtomArrayStack` carrying `b`); the other `index_*` functions go through the same
+`_call_non_index_function`. -/
+theorem C15_index_eq_coord (a : Arr) (pairs : List (Int × Int)) (periodic : Bool) (box : BoxArg)
+    (own : Option BoxArg) (a1 a2 : Arr) (hr : a.rank ≠ 1)
     (h1 : gather a (pairs.map Prod.fst) = some a1) (h2 : gather a (pairs.map Prod.snd) = some a2) :
-    indexDisplacement K a pairs periodic box =
-      if periodic then (match box with | .none => .err .valueError | bx => displacement K a1 a2 bx)
-      else displacement K a1 a2 .none := by
+    indexDisplacement K a pairs periodic box own =
+      match selectBox K.boxPrecedence periodic own box with
+      | .ok bx => displacement K a1 a2 bx
+      | .error e => .err e := by
   cases a with
   | v _ => simp [Arr.rank] at hr
   | l _ => simp only [indexDisplacement, h1, h2]; rfl
   | s _ => simp only [indexDisplacement, h1, h2]; rfl
+
+/-- in particular: an explicit box on atoms that carry a different box of their own -/
+example (a : Arr) (pairs : List (Int × Int)) (a1 a2 : Arr) (hr : a.rank ≠ 1)
+    (h1 : gather a (pairs.map Prod.fst) = some a1) (h2 : gather a (pairs.map Prod.snd) = some a2) :
+    indexDisplacement K a pairs true (.one tricEx) (some (.one orthoEx)) = displacement K a1 a2 (.one tricEx) := by
+  rw [C15_index_eq_coord a pairs true _ _ a1 a2 hr h1 h2,
+    (C15_index_box_precedence (some (.one orthoEx)) (.one tricEx)).2.1 rfl]
 
 /-! ## Displacement with a box -/
 
@@ -138,8 +164,6 @@ theorem C15_triclinic_min_image (d : Vec) (b : Box) (hdet : b.det ≠ 0) (hno : 
       ∀ i j k : Int, r.normSq ≤ (d.add (vecMul (ofInts i j k) b)).normSq :=
   displacement1_tric_min C15_gen_consts d b hdet hno hshort
 
-def orthoEx : Box := ⟨⟨0, 8, 0⟩, ⟨16, 0, 0⟩, ⟨0, 0, -4⟩⟩
-def tricEx : Box := ⟨⟨8, 0, 0⟩, ⟨4, 8, 0⟩, ⟨2, 2, 8⟩⟩
 example : orthoEx.det ≠ 0 ∧ OrthoBox orthoEx := by
   simp only [OrthoBox, M3.det, triple, V3.dot, V3.cross, orthoEx]; norm_num
 example : tricEx.det ≠ 0 ∧ isOrthogonal K tricEx = false := by
